@@ -10,7 +10,8 @@ func VerifC11Flow() {
 	S := 1 + vChoose(2) // server Receive Maximum 1..2
 	caps := NewDefaultServerCapabilities()
 	caps.ReceiveMaximum = uint16(S)
-	s, _ := vNewServer(&Options{Capabilities: caps})
+	s, h := vNewServer(&Options{Capabilities: caps})
+	h.aclDeny = func(cl *Client, topic string, write bool) bool { return write && topic == "denied" }
 	c := vConn()
 	cl := s.NewClient(c, "t1", "c1", false)
 	cl.ParseConnect("t1", packets.Packet{ProtocolVersion: 5, Connect: packets.ConnectParams{ClientIdentifier: "c1", Keepalive: 60}, Properties: packets.Properties{ReceiveMaximum: uint16(R)}})
@@ -30,7 +31,7 @@ func VerifC11Flow() {
 	published, delivered := 0, 0
 	steps := vParam("STEPS", 3)
 	for i := 0; i < steps; i++ {
-		switch vChoose(5) {
+		switch vChoose(5 + vParam("EXTRA", 2)) {
 		case 0: // broker delivers a message to the client
 			q := vByteIn("\x01\x02")
 			s.publishToSubscribers(packets.Packet{FixedHeader: packets.FixedHeader{Type: packets.Publish, Qos: q}, TopicName: "a", Payload: []byte{byte(i)}, Origin: "other"})
@@ -74,6 +75,17 @@ func VerifC11Flow() {
 				inboundReleased++
 				break
 			}
+		case 5: // client retransmits (DUP) one of its QoS 2 publishes that is still awaiting PUBREL
+			for id := range inOpen {
+				_ = s.processPacket(cl, packets.Packet{ProtocolVersion: 5, FixedHeader: packets.FixedHeader{Type: packets.Publish, Qos: 2, Dup: true}, PacketID: id, TopicName: "zz", Payload: []byte{9}})
+				break
+			}
+		case 6: // client publishes QoS 1 to a topic its write permission denies: refused with 0x87, hence acknowledged
+			if len(inOpen) >= S {
+				continue
+			}
+			nextClientID++
+			_ = s.processPacket(cl, packets.Packet{ProtocolVersion: 5, FixedHeader: packets.FixedHeader{Type: packets.Publish, Qos: 1}, PacketID: nextClientID, TopicName: "denied", Payload: []byte{9}})
 		case 4: // spurious PUBCOMP for an id that is in no exchange
 			_ = s.processPacket(cl, packets.Packet{ProtocolVersion: 5, FixedHeader: packets.FixedHeader{Type: packets.Pubcomp}, PacketID: 999})
 		}
